@@ -70,6 +70,9 @@ enum Fault {
     /// a token of the library's own source as the name
     DictName(String, String),
     BadInt(usize, bool),
+    /// an integer variable with a value over a small alphabet of digits, signs and look-alikes
+    /// (valid or not: the model decides)
+    OddInt(String, bool),
     Remove(usize),
 }
 
@@ -79,6 +82,7 @@ fn fault() -> BoxedStrategy<Fault> {
         2 => (0usize..BAD_NAMES.len(), sumgen::text()).prop_map(|(i, v)| Fault::BadName(i, v)),
         2 => (0usize..BAD_INTS.len(), any::<bool>()).prop_map(|(i, b)| Fault::BadInt(i, b)),
         3 => (0usize..11).prop_map(Fault::Remove),
+        2 => (crate::engine::gen::small_alphabet(&['+', '-', '1', '0', '9', ' ', '.', 'e', 'x', '_', '=', '\t'], 4, 6), any::<bool>()).prop_map(|(v, w)| Fault::OddInt(v, w)),
         2 => (0u8..5, 0usize..VARS.len(), any::<u16>(), 0u8..27, sumgen::text()).prop_map(|(k, i, p, l, v)| Fault::Misspelt(k, i, p, l, v)),
         1 => (crate::engine::dict::string_token(name_char, "X"), sumgen::text()).prop_map(|(n, v)| Fault::DictName(n, v)),
     ]
@@ -124,6 +128,7 @@ fn apply_fault(lines: &mut Vec<String>, f: &Fault, pos: u16) {
             idx(pos, lines.len() + 1),
             format!("{}={}", if *which { "FILE_SIZE" } else { "SIZE_PKG" }, BAD_INTS[*i]),
         ),
+        Fault::OddInt(v, which) => lines.insert(idx(pos, lines.len() + 1), format!("{}={}", if *which { "FILE_SIZE" } else { "SIZE_PKG" }, v)),
         Fault::Remove(k) => {
             let name = VARS[m::required()[*k]].0;
             let prefix = format!("{}=", name);
